@@ -273,6 +273,44 @@ def explore_histories(ctx, n):
             ctx.fail("C06:outside-roots", f"the file outside every node root is gone: {final['outside']}", {"family": "history", "spec": spec, "ops": [list(o) for o in ops]})
 
 
+def explore_detector_gate(ctx):
+    """the fourth gate: the acquisition name an import-detect extension returns is vetted as returned, spelling and all"""
+    import shutil
+
+    from alpenhorn.daemon import auto_import as AI
+    from alpenhorn.daemon import update as U
+    from vf.harness import world as w
+
+    base = ctx.tmp() / "detector"
+    spellings = ["2024/run", "2024/run/", "2024//run", "./2024/run", "2024/run/.", "2024/./run", "2024/run//", "2024/sub/../run", "/2024/run", "2024", "2024/", "./2024", ""]
+    for sp in spellings:
+        shutil.rmtree(base, ignore_errors=True)
+        w.fresh_db()
+        g = w.mkgroup("g")
+        node = w.mknode(base, "n", g, stype="F")
+        root = pathlib.Path(node.root)
+        (root / "2024" / "run").mkdir(parents=True)
+        (root / "2024" / "run" / "a.dat").write_bytes(b"abc")
+        w.extensions._id_ext = [lambda path, node_, _sp=sp: (_sp, None)]
+        queue = w.StepQueue.make()
+        un = U.UpdateableNode(queue, w.StorageNode.get(id=node.id))
+        try:
+            AI.import_file(un, queue, pathlib.PurePath("2024/run/a.dat"), True, None)
+            exits, aborted = w.drain_with_workers(queue)
+        finally:
+            w.extensions._id_ext = [w.detect]
+        names = [a.name for a in w.ArchiveAcq.select()]
+        ctx.count("detector-gate")
+        ctx.distinct_add(("detector", sp))
+        rp = {"family": "detector-gate", "detector_returns": sp, "stored": names}
+        bad = [nm for nm in names if not canonical(nm)]
+        if bad or aborted:
+            ctx.fail("C06:gate", f"the import detector returned the acquisition name {sp!r}; stored acquisition names {names} (not canonical: {bad}); abort={aborted}", rp)
+        if canonical(sp) and sp == "2024/run" and names != [sp]:
+            ctx.fail("C06:gate", f"the canonical acquisition name {sp!r} from the detector was not accepted: {names}", rp)
+    shutil.rmtree(base, ignore_errors=True)
+
+
 def explore_gates(ctx, n):
     """the same strings offered to the index through its gates: `file create`, `acq create`, import requests"""
     from vf.harness import cliworld as cw
@@ -308,6 +346,7 @@ def explore_gates(ctx, n):
 def explore(ctx):
     explore_strings(ctx, 8 if ctx.quick() else 10, 3000 if ctx.quick() else 40000)
     explore_gates(ctx, 150 if ctx.quick() else 3000)
+    explore_detector_gate(ctx)
     explore_rmdir(ctx)
     explore_histories(ctx, 25 if ctx.quick() else 1500)
 
